@@ -664,8 +664,12 @@ _dispatch_continuation_init_slow(dispatch_continuation_t dc,
 	pthread_priority_t pp = 0;
 
 	// balanced in d_block_async_invoke_and_release or d_block_wait
-	if (os_atomic_cmpxchg2o(dbpd, dbpd_queue, NULL, dq, relaxed)) {
-		_dispatch_retain_2(dq);
+	// the +2 has to be taken before the queue is published: whoever clears
+	// dbpd_queue (the invoke, or a concurrent dispatch_block_wait()) gives it
+	// back at once
+	_dispatch_retain_2(dq);
+	if (!os_atomic_cmpxchg2o(dbpd, dbpd_queue, NULL, dq, relaxed)) {
+		_dispatch_release_2(dq);
 	}
 
 	if (dc_flags & DC_FLAG_CONSUME) {
@@ -1893,8 +1897,12 @@ _dispatch_sync_block_with_privdata(dispatch_queue_t dq, dispatch_block_t work,
 	ov = _dispatch_set_priority_and_voucher(p, v, 0);
 
 	// balanced in d_block_sync_invoke or d_block_wait
-	if (os_atomic_cmpxchg2o(dbpd, dbpd_queue, NULL, dq, relaxed)) {
-		_dispatch_retain_2(dq);
+	// the +2 has to be taken before the queue is published: whoever clears
+	// dbpd_queue (the invoke, or a concurrent dispatch_block_wait()) gives it
+	// back at once
+	_dispatch_retain_2(dq);
+	if (!os_atomic_cmpxchg2o(dbpd, dbpd_queue, NULL, dq, relaxed)) {
+		_dispatch_release_2(dq);
 	}
 	if (dc_flags & DC_FLAG_BARRIER) {
 		_dispatch_barrier_sync_f(dq, work, _dispatch_block_sync_invoke,
@@ -2137,8 +2145,12 @@ _dispatch_async_and_wait_block_with_privdata(dispatch_queue_t dq,
 	}
 
 	// balanced in d_block_sync_invoke or d_block_wait
-	if (os_atomic_cmpxchg2o(dbpd, dbpd_queue, NULL, dq, relaxed)) {
-		_dispatch_retain_2(dq);
+	// the +2 has to be taken before the queue is published: whoever clears
+	// dbpd_queue (the invoke, or a concurrent dispatch_block_wait()) gives it
+	// back at once
+	_dispatch_retain_2(dq);
+	if (!os_atomic_cmpxchg2o(dbpd, dbpd_queue, NULL, dq, relaxed)) {
+		_dispatch_release_2(dq);
 	}
 
 	dispatch_tid tid = _dispatch_tid_self();
